@@ -73,6 +73,7 @@ GALLERY = [
      "1, 2, 3, 4, 5, 6, 7, 8, 9, 10, 11, 12", "650"),
     ("<D>(deps: &D, res: Result<u8, ()>) -> Result<u8, ()>", "{ let v = res?; Ok(v + 1) }", "Ok(1)", "Ok(2)"),
     ("<D>(deps: (&D), x: i32) -> i32", "{ x + 1 }", "1", "2"),   # a parenthesised dependency type
+    ("<D, T: ?::core::marker::Sized + ::core::fmt::Display + ::core::marker::Sync>(deps: &D, value: &T) -> ::std::string::String", "{ ::std::format!(\"{}\", value) }", "\"abc\"", "\"abc\""),   # T = str
     ("<D>(deps: &D, c: char, f: f64, i: i128, u: usize, un: ()) -> ::std::string::String", "{ ::std::format!(\"{c}{f}{i}{u}{un:?}\") }", "'c', 1.5, -3, 4, ()", "\"c1.5-34()\""),
     ("<D>(deps: &D, cow: ::std::borrow::Cow<'_, str>) -> usize", "{ cow.len() }", "::std::borrow::Cow::Borrowed(\"abc\")", "3"),
     ("<D>(deps: &D, x: &&&u8) -> u8", "{ ***x + 1 }", "&&&4", "5"),
